@@ -27,6 +27,18 @@ func XIndexExact(lon float64, h int64) (x int64, frac float64) {
 	return fl.Int64(), df
 }
 
+// OnColumnBoundary reports whether lon lies exactly (in rationals) on a column boundary of zoom h.
+func OnColumnBoundary(lon float64, h int64) bool {
+	if lon == 180 {
+		lon = -180
+	}
+	t := new(big.Rat).SetFloat64(lon)
+	t.Add(t, big.NewRat(180, 1))
+	t.Mul(t, new(big.Rat).SetInt(new(big.Int).Lsh(big.NewInt(1), uint(h))))
+	t.Quo(t, big.NewRat(360, 1))
+	return t.IsInt()
+}
+
 // XBand is the half-width (in index units) inside which the library's float evaluation of the column may fall on
 // either side of a boundary: 2^h * 2^-49.
 func XBand(h int64) float64 { return math.Ldexp(1, int(h)-49) }
